@@ -45,8 +45,15 @@ def check_render(ctx, h, doc, cfg_desc, config):
                 err = p.stderr.decode("utf-8", "replace")
                 first = next((ln for ln in err.splitlines() if ln.startswith("Error")), err[:80])
                 kind = "html-label" if ("label of node" in err or "syntax error" in first) else "other"
-                V("dot-accepts", f"graphviz-rejects-source:{kind}", {"config": cfg_desc, "stderr": err[:300]})
-                return None
+                errs = [ln for ln in err.splitlines() if not ln.startswith("Warning")]
+                source_fault = any(m in err for m in ("syntax error", "not well-formed", "mismatched tag", "in label of node",
+                                                      "Unknown HTML element", "Illegal", "invalid token", "No or improper"))
+                if source_fault:
+                    V("dot-accepts", f"graphviz-rejects-source:{kind}", {"config": cfg_desc, "rc": p.returncode, "non_warning_stderr": errs[:6],
+                                                                           "stderr_tail": err[-200:], "source_bytes": len(src)})
+                    return None
+                # e.g. "Error: lost 0 2 edge": a failure of graphviz' own layout on a source it parsed; not the renderer's
+                ctx.probe("graphviz_layout_error_on_valid_source")
     try:
         g = dot.parse(src)
     except dot.DotError as e:
